@@ -220,6 +220,113 @@ theorem aggR_pushdown (R R' : List V → V) (hR : Rered R R') (parts : List (Vec
     simp only [List.flatten_cons, List.map_cons]
     exact (hR l0 ls (hLne l0 List.mem_cons_self) (fun l hl => hLne l (List.mem_cons_of_mem _ hl))).symm
 
+/-! ### the same, exactly: the groups come out in the same order -/
+
+omit hidem in
+theorem dedup_append {α : Type} [BEq α] [LawfulBEq α] (a b : List α) :
+    dedup (a ++ b) = dedup a ++ (dedup b).filter fun y => !a.contains y := by
+  induction a with
+  | nil =>
+    have : (dedup b).filter (fun _ => true) = dedup b := List.filter_eq_self.mpr (fun _ _ => rfl)
+    simp [this, dedup]
+  | cons x xs ih =>
+    simp only [List.cons_append, dedup, ih, List.filter_append, List.filter_filter]
+    congr 2
+    apply List.filter_congr
+    intro y _
+    simp only [List.contains_cons, Bool.not_or]
+
+omit hidem in
+theorem dedup_of_nodup {α : Type} [BEq α] [LawfulBEq α] (l : List α) (h : l.Nodup) : dedup l = l := by
+  induction l with
+  | nil => rfl
+  | cons x xs ih =>
+    obtain ⟨hx, hxs⟩ := List.nodup_cons.mp h
+    simp only [dedup, ih hxs]
+    congr 1
+    rw [List.filter_eq_self]
+    intro y hy
+    simp only [Bool.not_eq_true', beq_eq_false_iff_ne, ne_eq]
+    intro he; subst he; exact hx hy
+
+omit hidem in
+theorem dedup_dedup_append {α : Type} [BEq α] [LawfulBEq α] (a b : List α) :
+    dedup (dedup a ++ b) = dedup (a ++ b) := by
+  rw [dedup_append, dedup_append, dedup_of_nodup _ (nodup_dedup a)]
+  congr 1
+  apply List.filter_congr
+  intro y _
+  congr 1
+  have := mem_dedup a y
+  rw [Bool.eq_iff_iff]
+  simpa using this
+
+omit hidem in
+theorem dedup_flatten_dedup {α : Type} [BEq α] [LawfulBEq α] (ls : List (List α)) :
+    dedup (ls.map dedup).flatten = dedup ls.flatten := by
+  induction ls with
+  | nil => rfl
+  | cons l ls ih =>
+    simp only [List.map_cons, List.flatten_cons]
+    rw [dedup_dedup_append, dedup_append, ih, ← dedup_append]
+
+include hidem in
+/-- the keys of the concatenated partial results, in order of first appearance, are those of the union -/
+theorem partial_keys (R : List V → V) (parts : List (Vec V)) :
+    dedup ((parts.map (aggR key R)).flatten.map fun x => key x.1) = dedup (parts.flatten.map fun x => key x.1) := by
+  have h1 : (parts.map (aggR key R)).flatten.map (fun x => key x.1)
+      = (parts.map fun P => dedup (P.map fun x => key x.1)).flatten := by
+    rw [List.map_flatten, List.map_map]
+    congr 1
+    apply List.map_congr_left
+    intro P _
+    simp only [Function.comp_def, aggR, List.map_map]
+    have : ∀ k ∈ dedup (P.map fun x => key x.1), key k = k := by
+      intro k hk
+      rw [mem_dedup, List.mem_map] at hk
+      obtain ⟨x, _, rfl⟩ := hk
+      exact hidem _
+    conv => rhs; rw [← List.map_id (dedup (P.map fun x => key x.1))]
+    apply List.map_congr_left
+    intro k hk
+    exact this k hk
+  rw [h1]
+  have h2 : (parts.map fun P => dedup (P.map fun x => key x.1)) = (parts.map fun P => P.map fun x => key x.1).map dedup := by
+    rw [List.map_map]; rfl
+  rw [h2, dedup_flatten_dedup, List.map_flatten]
+
+include hidem in
+/-- **aggregating the partitions and re-aggregating the partial results is aggregating the
+union, group for group in the same order** -/
+theorem aggR_pushdown_eq (R R' : List V → V) (hR : Rered R R') (parts : List (Vec V)) :
+    aggR key R' (parts.map (aggR key R)).flatten = aggR key R parts.flatten := by
+  have hkeys := partial_keys key hidem R parts
+  show (dedup ((parts.map (aggR key R)).flatten.map fun x => key x.1)).map _ = (dedup (parts.flatten.map fun x => key x.1)).map _
+  rw [hkeys]
+  apply List.map_congr_left
+  intro k hk
+  congr 1
+  have hne := (mem_keys_iff key k parts.flatten).mp hk
+  have h1 := dist_members key hidem R k parts
+  unfold memOf at h1
+  rw [h1]
+  have h2 := memOf_flatten key k parts
+  unfold memOf at h2 hne
+  rw [h2] at hne ⊢
+  rw [← flatten_filter_nonempty]
+  rw [← flatten_filter_nonempty] at hne
+  generalize hL : ((parts.map fun P => (P.filter fun x => key x.1 == k).map (·.2)).filter fun l => !l.isEmpty) = L at hne ⊢
+  have hLne : ∀ l ∈ L, l ≠ [] := by
+    intro l hl
+    rw [← hL] at hl
+    have := (List.mem_filter.mp hl).2
+    intro he; subst he; simp at this
+  cases L with
+  | nil => exact absurd rfl hne
+  | cons l0 ls =>
+    simp only [List.flatten_cons, List.map_cons]
+    exact (hR l0 ls (hLne l0 List.mem_cons_self) (fun l hl => hLne l (List.mem_cons_of_mem _ hl))).symm
+
 end core
 
 end PromqlVerif
